@@ -15,7 +15,7 @@ from ..common import Ctx
 from . import _evalcommon as EC
 from .c08 import bool_sem
 
-MODULES = ["Ahbicht.Properties.C07"]
+MODULES = ["Ahbicht.Properties.C07", "Ahbicht.Properties.C07Str"]
 
 
 def comb(op, a, b):
